@@ -29,11 +29,10 @@ m("C06-1-timestamp-not-advanced-without-packets", "packetizer.go", "	p.Timestamp
 m("C06-2-padding-reuses-sequence-number", "packetizer.go", "				SequenceNumber: p.Sequencer.NextSequenceNumber(),\n				Timestamp:      p.Timestamp, // Use latest timestamp", "				SequenceNumber: p.Sequencer.NextSequenceNumber() - uint16(i&1),\n				Timestamp:      p.Timestamp, // Use latest timestamp")
 # ---- C08 / C09 / C10 / C15 (h264) ----
 m("C10-1-fua-end-bit", "codecs/h264_packet.go", "} else if naluRemaining-currentFragmentSize == 0 {", "} else if naluRemaining-currentFragmentSize <= 1 {")
-m("C10-2-splitter-4byte-startcode", "codecs/h264_packet.go", "		endIs4Byte := nals[nextStart-1] == 0\n", "		endIs4Byte := nals[nextStart-1] == 0 && nextStart-1 > start+offset+1\n")
 m("C08-1-g722-returns-input-when-it-fits", "codecs/g722_packet.go", "	o := make([]byte, len(payload))\n	copy(o, payload)\n\n	return append(out, o)", "	if len(out) == 0 && len(payload) > 8 {\n		return append(out, payload)\n	}\n	o := make([]byte, len(payload))\n	copy(o, payload)\n\n	return append(out, o)")
 m("C08-2-vp8-last-fragment-over-mtu", "codecs/vp8_packet.go", "	maxFragmentSize := int(mtu) - usingHeaderSize\n", "	maxFragmentSize := int(mtu) - usingHeaderSize\n	if usingHeaderSize == vp8HeaderSize+3 && maxFragmentSize > 16 {\n		maxFragmentSize++\n	}\n")
 m("C09-1-h265-fu-donl-stale", "codecs/h265_packet.go", "	p.payloadHeader = payloadHeader\n	p.fuHeader = fuHeader\n	p.payload = payload\n", "	p.payloadHeader = payloadHeader\n	p.fuHeader = fuHeader\n	p.payload = payload\n	_ = fuHeader\n")
-m("C15-1-av1-keeps-buffer-on-new-sequence", "codecs/av1_depacketizer.go", "	if !obuZ && len(d.buffer) > 0 {\n		d.buffer = nil\n	}\n", "	if !obuZ && len(d.buffer) > 0 && !obuY {\n		d.buffer = nil\n	}\n")
+m("C15-2-h264-start-fragment-keeps-buffer-in-avc-mode", "codecs/h264_packet.go", "		if payload[1]&fuStartBitmask != 0 {\n", "		if payload[1]&fuStartBitmask != 0 && !(p.IsAVC && len(p.fuaBuffer) == 2) {\n")
 # ---- C11 / C12 ----
 m("C11-1-picture-id-wrap-mask", "codecs/vp8_packet.go", "	p.pictureID &= 0x7FFF\n", "	p.pictureID &= 0x3FFF\n")
 m("C11-2-decoder-15bit-high-bits", "codecs/vp8_packet.go", "p.PictureID = (uint16(payload[payloadIndex]&0x7F) << 8) | uint16(payload[payloadIndex+1])", "p.PictureID = (uint16(payload[payloadIndex]&0x3F) << 8) | uint16(payload[payloadIndex+1])")
@@ -45,7 +44,7 @@ m("C12-3-ss-height-low-byte", "codecs/vp9_packet.go", "			out[off] = byte(height
 m("C13-1-w-field-count", "codecs/av1_packet.go", "shouldUseWField := (isLast || toWrite >= freeSpace) && currentOBUCount < 3", "shouldUseWField := (isLast || toWrite >= freeSpace) && currentOBUCount < 4")
 m("C13-2-leb128-read-mask", "codecs/av1/obu/leb128.go", "		// Discard the MSB\n		in >>= 8\n", "		// Discard the MSB\n		in >>= 8\n		if out > 1<<27 {\n			out &^= 1 << 6\n		}\n")
 # ---- C14 ----
-m("C14-1-ap-min-tid", "codecs/h265_packet.go", "				if headerTID < tid {", "				if headerTID < tid || tid == uint8(math.MaxUint8) && false {")
+m("C14-1-ap-tid-of-first-unit", "codecs/h265_packet.go", "				if headerTID < tid {", "				if tid == uint8(math.MaxUint8) {")
 m("C14-2-paci-phssize-mask", "codecs/h265_packet.go", "	const mask = (0b00000001 << 8) | 0b11110000\n\n	return uint8((p.paciHeaderFields & mask) >> 4)", "	const mask = (0b00000000 << 8) | 0b11110000\n\n	return uint8((p.paciHeaderFields & mask) >> 4)")
 m("C14-3-fu-layer-bit-lost", "codecs/h265_packet.go", "out[0] = (out[0] & 0b10000001) | h265NaluFragmentationUnitType<<1", "out[0] = (out[0] & 0b10000000) | h265NaluFragmentationUnitType<<1")
 # ---- C16 / C17 / C18 / C19 ----
